@@ -81,6 +81,23 @@ def run(ck):
                   ("%d race report(s), first in %s %s:%d" % (len(races), races[0]["function"], races[0]["file"], races[0]["line"])) if races else ("" if ran else "the probe did not run: rc %s %s" % (src_rc, serr[-300:])))
         ck.coverage["tsan_reports_outside_library"] = other
         if not ran: ck.broken.append({"kind": "probe", "name": "rwstress", "detail": (sout[-300:] + serr[-600:])})
+        # senders vs. the receiver on the node state table: the first message to ever new nodes is submitted while the receiver
+        # processes the node's first uplink message (both look the node up and create its entry)
+        try:
+            texe = vlib.build_harness(san="tsan")
+            txs = ["start 1 - 0", "logw 0", "txstress %d" % (300 if ck.tier == "quick" else 6000)]
+            trc, tout, terr = vlib.run_driver(texe, "\n".join(txs) + "\n", timeout=600, env_extra=TSAN_ENV)
+            traces, _o = tsan_races(terr)
+            tran = "txstress rounds" in tout
+            for r_ in traces[:2]:
+                ck.violation("race.tsan.tx.%s" % r_["function"], {"property": "C10", "tsan": True, "script": txs, "tsan_report": r_["report"], "function": r_["function"], "file": r_["file"], "line": r_["line"],
+                             "reason": "ThreadSanitizer reports a data race in library code between a sender and the receiver thread on a node's first use",
+                             "meaning": "ThreadSanitizer build of the harness; txstress <rounds>: per round a new node address, its first uplink message is pushed to the receiver thread while the script thread submits the first message to it"})
+            if not tran and not traces:
+                ck.violation("race.tx-stress-died", {"property": "C10", "script": txs, "driver_rc": trc, "observed": tout[-300:], "stderr": terr[-800:], "reason": "the driver died while senders raced the receiver on new nodes"})
+            ck.oblige("tx stress on the real code under ThreadSanitizer (first message to a new node vs. the receiver processing that node's first uplink message): no data race reported in library frames", tran and not traces, "%d race report(s)" % len(traces))
+        except vlib.BuildBroken as e:
+            ck.oblige("tx stress under ThreadSanitizer (harness build)", False, str(e)[:300])
     def demonstrated(d):
         for r in races:
             if r["function"] == d.get("function") or any(f[0] == d.get("function") for f in r["library_frames"]): return r
